@@ -109,6 +109,11 @@ def declare(w, with_send=True):
     w.add(Contract("model:Queue.put", {"self": REF("Queue"), "item": ANY}, modifies=lambda a, h: [("Queue", a.self, "$content")],
                    cases=[Case("ok", post=lambda a, h, h2, r: [qc(h2, a.self) == z3.Concat(qc(h, a.self), z3.Unit(a.item))])], trusted=True))
 
+    w.add(Contract("model:Queue.empty", {"self": REF("Queue")}, cases=[Case("ok", restype=BOOL, post=lambda a, h, h2, r: [r == (slen(qc(h, a.self)) == 0)])], trusted=True,
+                   note="queue.Queue.empty(): a snapshot (other threads may put or get right after it)"))
+    w.add(Contract("model:Queue.qsize", {"self": REF("Queue")}, cases=[Case("ok", restype=INT, post=lambda a, h, h2, r: [r == slen(qc(h, a.self))])], trusted=True,
+                   note="queue.Queue.qsize(): a snapshot"))
+
     def get_post(a, h, h2, r):
         return [slen(qc(h, a.self)) > 0, r == qc(h, a.self)[0], qc(h2, a.self) == z3.SubSeq(qc(h, a.self), 1, slen(qc(h, a.self)) - 1)]
 
